@@ -133,8 +133,76 @@ func runNode(c *fw.Ctx, idx int, n univ.SNode) {
 			}
 		}
 	}
+	if n.Schema.Type == "fixed" {
+		runNearMissFixed(c, n, rs, schemaJSON)
+	}
 	if idx%41 == 0 {
 		c.Sample(map[string]interface{}{"schema": schemaJSON, "targets": len(univ.Targets(n.Schema, true)), "datums": len(datums)})
+	}
+}
+
+// runNearMissFixed: Go byte arrays whose length is NOT the fixed size. The statement is conditional — "if a codec
+// can be built" — so a refusal is fine; but a codec that is built must write valid data for EVERY value of the Go
+// type and read it back unchanged, which a length mismatch cannot do for values with non-zero bytes everywhere.
+func runNearMissFixed(c *fw.Ctx, n univ.SNode, rs *ref.Schema, schemaJSON string) {
+	for _, l := range []int{n.Schema.Size + 4, n.Schema.Size + 1, n.Schema.Size - 1, 2 * n.Schema.Size} {
+		if l <= 0 || l == n.Schema.Size {
+			continue
+		}
+		at := reflect.ArrayOf(l, reflect.TypeOf(byte(0)))
+		for _, ft := range []reflect.Type{at, reflect.PointerTo(at)} {
+			st := reflect.StructOf([]reflect.StructField{{Name: "F", Type: ft, Tag: `json:"f"`}})
+			tname := fmt.Sprintf("struct{F %s}", ft)
+			locus := n.Chain + "|near-miss|" + gv.KindName(ft)
+			desc := fmt.Sprintf("schema %s, Go type %s (array length differs from the fixed size)", n.Schema.Print(nil), tname)
+			c.Eval(1)
+			c.Begin(locus, desc)
+			codec, err, pan, site := build(schemaJSON, reflect.New(st).Elem().Interface())
+			if pan != nil {
+				c.Violation("panic:"+fw.PanicClass(pan)+"@"+site+"|build|"+locus, fmt.Sprintf("Schema.Codec panicked: %v — %s", pan, desc), desc)
+				continue
+			}
+			if err != nil {
+				c.Count("codec_refused", 1)
+				c.Nontrivial(desc)
+				continue
+			}
+			c.Nontrivial(desc)
+			v := reflect.New(st).Elem()
+			arr := reflect.New(at).Elem()
+			for i := 0; i < l; i++ {
+				arr.Index(i).SetUint(uint64(0x11 * (i + 1) & 0xff))
+			}
+			if ft.Kind() == reflect.Ptr {
+				p := reflect.New(at)
+				p.Elem().Set(arr)
+				v.Field(0).Set(p)
+			} else {
+				v.Field(0).Set(arr)
+			}
+			var out []byte
+			back := reflect.New(st).Elem()
+			var rerr error
+			if c.Guard(locus, desc, desc, func() {
+				w := avro.NewWriteBuf(nil)
+				codec.Write(w, unsafe.Pointer(v.UnsafeAddr()))
+				out = append([]byte(nil), w.Bytes()...)
+				rerr = codec.Read(avro.NewReadBuf(out), unsafe.Pointer(back.UnsafeAddr()))
+			}) {
+				continue
+			}
+			if _, used, derr := ref.Decode(rs, out); derr != nil || used != len(out) {
+				c.Violation("invalid-encoding|"+locus, fmt.Sprintf("a codec was built and Write produced %x, not exactly one encoding under the schema (used %d, err %v) — %s", out, used, derr, desc), desc)
+				continue
+			}
+			if rerr != nil {
+				c.Violation("read-error|"+locus, fmt.Sprintf("Read of the codec's own output %x failed: %v — %s", out, rerr, desc), desc)
+				continue
+			}
+			if d := gv.Equal(v, back); d != "" {
+				c.Violation("not-inverted|"+locus, fmt.Sprintf("a codec was built, but Read(Write(v)) = %s for v = %s (difference at %s; bytes %x) — %s", gv.Show(back.Field(0)), gv.Show(v.Field(0)), d, out, desc), desc)
+			}
+		}
 	}
 }
 
@@ -147,7 +215,7 @@ func init() {
 			if tier == "thorough" {
 				d = 3
 			}
-			return fmt.Sprintf("caller-written schemas record{f: S} for every S of nesting depth <=%d over leaves {boolean,int,long,float,double,bytes,string,fixed(4),record,date,timestamp-millis,timestamp-micros,RFC3339 string} and constructors {array,map,record{x},[null,S],[S,null]} × every compatible Go field type (int/int16/int32/int64, float32/float64, *T, **T, null.* wrappers, time.Time, [n]byte, slices/maps/structs of these) × tag {plain, omitempty} × the value alphabet of the schema restricted to the target's range; oracle: if Schema.Codec builds, the reference decoder reads Write's bytes, with nothing left over, as the datum gv.ToDatum assigns to the value (union branch, width, logical unit), and Codec.Read of the bytes returns the value; non-trivial = a distinct (schema, type, value) for which a codec was built", d)
+			return fmt.Sprintf("caller-written schemas record{f: S} for every S of nesting depth <=%d over leaves {boolean,int,long,float,double,bytes,string,fixed(4),record,date,timestamp-millis,timestamp-micros,RFC3339 string} and constructors {array,map,record{x},[null,S],[S,null]} × every compatible Go field type (int/int16/int32/int64, float32/float64, *T, **T, null.* wrappers, time.Time, [n]byte, slices/maps/structs of these) × tag {plain, omitempty} × the value alphabet of the schema restricted to the target's range; oracle: if Schema.Codec builds, the reference decoder reads Write's bytes, with nothing left over, as the datum gv.ToDatum assigns to the value (union branch, width, logical unit), and Codec.Read of the bytes returns the value; plus, for fixed, Go byte arrays of other lengths (size±1, +4, ×2; by value and behind a pointer): a refusal is fine, a codec that is built must invert a value with no zero byte; non-trivial = a distinct (schema, type, value) for which a codec was built", d)
 		},
 		Assumptions: []string{
 			"only unions of null with one other type (either order) are in scope for writing; multi-branch and single-branch unions are excluded (the statement lists null first or second)",
